@@ -65,7 +65,9 @@ func (s Schema) Facts() Facts {
 			if c.Default != nil {
 				d = normDefault(c.Default.SQL())
 			}
-			out = append(out, fmt.Sprintf("col %s.%s aff=%s notnull=%v dflt=%s hidden=%d", t.Name, c.Name, Affinity(c.Type), !c.Null, d, hidden))
+			// SQLite forces NOT NULL on the key columns of a WITHOUT ROWID table, whatever was declared
+			notnull := !c.Null || t.WithoutRowID && t.InPK(c.Name)
+			out = append(out, fmt.Sprintf("col %s.%s aff=%s notnull=%v dflt=%s hidden=%d", t.Name, c.Name, Affinity(c.Type), notnull, d, hidden))
 			order = append(order, c.Name)
 			if c.AutoInc {
 				out = append(out, fmt.Sprintf("autoinc %s.%s", t.Name, c.Name))
